@@ -2,5 +2,17 @@ SPEC_PART = dict(
     props_file="C13_hll",
     legs=[dict(family="hll", focus="foreign", oracles=["foreign_ok"], profiles=["debug", "release"],
                mask=[2, 3, 7, 8, 9], n_quick=150, n_thorough=2000)],
-    trusted=[], assumptions=[], covers="hll: placeholder",
+    trusted=["hll format variants = my reading of the Java/C++ writers (DESIGN.md Appendix A): compact / updatable list and set, "
+             "array images with or without COMPACT and OUT_OF_ORDER, Hll4 cur_min > 0 with a compact aux list, lgArr byte 0 or "
+             "lgAuxArrInts; the updatable Hll4 aux table is generated too (known finding); no upstream files offline",
+             "hll: the generator's spec encoder (tools/families/hll.py enc_list / enc_set / enc_hll, Java-compatible table builders) is "
+             "independent of the crate and of the model; Spec/HllLayout.v hll_spec_decode judges the crate's answer"],
+    assumptions=[],
+    covers="hll: both list variants are read back to the list they encode (c13_hll_list_variants_partial, proved); for set "
+           "(compact in any order / updatable table with colliding probe sequences) and array variants (Hll4/6/8 x COMPACT x "
+           "OUT_OF_ORDER x cur_min > 0 x smallest-possible exception x lgArr byte) the claim is checked, not proved: each spec-encoded "
+           "image must be accepted and the dumped state must be exactly what the independent decoder reads from the same bytes "
+           "(mode, lg_k, type, coupon set / registers, flag, cur_min, exceptions, kxq, hip); then the sketch is queried, re-serialized, "
+           "updated and round-tripped in lock step with the model. Defect D4 (registers skipped under COMPACT) was found here and "
+           "repaired. Known finding C13-hll-updatable-hll4-aux: updatable Hll4 images with a hash-table aux area are rejected.",
 )
